@@ -115,6 +115,59 @@ let sx_tpred (x : sx) : tpred =
   | L [A "rec"; n] -> TRec (nat_of_int (atom_int n))
   | _ -> failwith "tpred"
 
+(* Z conversions *)
+let z_of_int (i : int) : z = if i = 0 then Z0 else if i > 0 then Zpos (pos_of_int i) else Zneg (pos_of_int (-i))
+let int_of_z (x : z) : int = match x with Z0 -> 0 | Zpos p -> int_of_pos p | Zneg p -> - (int_of_pos p)
+let sx_z (x : sx) : z = z_of_int (atom_int x)
+let z_sx (x : z) : sx = A (string_of_int (int_of_z x))
+
+let sx_mkey (x : sx) : z * z = match x with L [r; c] -> (sx_z r, sx_z c) | _ -> failwith "mkey"
+let sx_mval (x : sx) : n * n = match x with L [r; c] -> (sx_n r, sx_n c) | _ -> failwith "mval"
+let mval_sx ((r, c) : n * n) : sx = L [n_sx r; n_sx c]
+let mkey_sx ((r, c) : z * z) : sx = L [z_sx r; z_sx c]
+
+(* ------------------------------------------------------- C14: map histories *)
+let sx_mop (fk : sx -> 'k) (fv : sx -> 'v) (x : sx) : ('k, 'v) mop =
+  match x with
+  | L [A "b"; k; v] -> OBind (fk k, fv v)
+  | L [A "g"; k] -> OGet (fk k)
+  | L [A "r"; ks] -> ORetain (sx_list fk ks)
+  | _ -> failwith "mop"
+
+let opt_sx (f : 'a -> sx) (o : 'a option) : sx = match o with Some v -> f v | None -> A "-"
+
+(* run a history; after every step print the step result and a snapshot of
+   [get] over the key universe ("!" where the real get would panic) *)
+let run_history mget mbind mretain (get_panics : 'm -> 'k -> bool) (vsx : 'v -> sx)
+    (universe : 'k list) (m0 : 'm) (ops : ('k, 'v) mop list) : sx =
+  let steps = mrun mget mbind mretain m0 ops in
+  let snap m = L (List.map (fun k -> if get_panics m k then A "!" else opt_sx vsx (mget m k)) universe) in
+  L (List.map2 (fun (m, o) op ->
+      match o, op with
+      | RBind ok, _ -> L [A "b"; bool_sx ok; snap m]
+      | RGet v, OGet k -> if get_panics m k then L [A "g"; A "!"] else L [A "g"; opt_sx vsx v]
+      | RGet v, _ -> L [A "g"; opt_sx vsx v]
+      | RRetain ok, _ -> L [A "r"; bool_sx ok; snap m]) steps ops)
+
+let cmd_c14 (args : sx list) : sx =
+  match args with
+  | [A "gen"; ops] ->
+      let d = table_dom [] in
+      let universe = List.map n_of_int [0; 1; 2; 3] in
+      run_history d.mget d.mbind d.mretain (fun _ _ -> false) n_sx universe d.mempty
+        (sx_list (sx_mop sx_n sx_n) ops)
+  | [A "str"; ops] ->
+      let d = string_dom in
+      let universe = List.map n_of_int [0; 1; 2; 3; 4; 5] in
+      run_history d.mget d.mbind d.mretain (fun _ _ -> false) n_sx universe d.mempty
+        (sx_list (sx_mop sx_n sx_n) ops)
+  | [A "mat"; ops] ->
+      let d = matrix_dom in
+      let universe = List.concat_map (fun r -> List.map (fun c -> (z_of_int r, z_of_int c)) [-1; 0; 1; 2]) [-1; 0; 1; 2] in
+      run_history d.mget d.mbind d.mretain mmget_panics mval_sx universe d.mempty
+        (sx_list (sx_mop sx_mkey sx_mval) ops)
+  | _ -> failwith "c14 args"
+
 (* --------------------------------------------------------------- commands *)
 let cmd_c12 (args : sx list) : sx =
   match args with
@@ -172,6 +225,7 @@ let dispatch (x : sx) : sx =
   | L (A "c12p" :: args) -> cmd_c12_pinned args
   | L (A "c13" :: args) -> cmd_c13 args
   | L (A "c16" :: args) -> cmd_c16 args
+  | L (A "c14" :: args) -> cmd_c14 args
   | _ -> failwith "unknown command"
 
 let () =
